@@ -124,6 +124,10 @@ pub struct W {
     pub abort: u32,
     /// a Pull whose future is polled k times and then dropped (abandoned consumer)
     pub abandon_pull: u32,
+    /// abandoned (polled k times, dropped) create / delete requests
+    pub abandon_ctrl: u32,
+    /// single list calls with a page token for an offset the server may not have issued
+    pub list_tok: u32,
     pub burst: u32,
     pub check_lists: u32,
     pub bad_refs: u32,
@@ -178,6 +182,8 @@ impl Default for W {
             goto: 0,
             abort: 0,
             abandon_pull: 0,
+            abandon_ctrl: 0,
+            list_tok: 0,
             burst: 0,
             check_lists: 0,
             bad_refs: 1,
@@ -314,6 +320,26 @@ pub fn arb_op(w: &W) -> BoxedStrategy<Op> {
         w.abandon_pull,
         (s.clone(), maxm.clone(), any::<bool>(), 0u8..4, any::<bool>())
             .prop_map(|(s, max, ri, k, settle_between)| Op::PollDrop { op: Box::new(Op::Pull { s, max, ri, a: false }), k, settle_between })
+            .boxed(),
+    );
+    add(
+        w.abandon_ctrl,
+        (s.clone(), t.clone(), 0u8..4, 0u8..5, any::<bool>())
+            .prop_map(|(s, t, which, k, settle_between)| {
+                let op = match which {
+                    0 => Op::DeleteTopic { t, a: false },
+                    1 => Op::DeleteSub { s, a: false },
+                    2 => Op::CreateSub { s, t, dl: 10, push: 0, a: false },
+                    _ => Op::CreateTopic { t, a: false },
+                };
+                Op::PollDrop { op: Box::new(op), k, settle_between }
+            })
+            .boxed(),
+    );
+    add(
+        w.list_tok,
+        (0u8..3, t.clone(), prop_oneof![Just(0i32), Just(1), Just(2), Just(1000)], prop_oneof![0u64..6, Just(50u64), Just(u64::MAX)])
+            .prop_map(|(kind, t, size, off)| Op::ListTok { kind, p: 0, t, size, tok: Tok::Offset(off) })
             .boxed(),
     );
     add(w.burst, (bk, s.clone(), t.clone(), bn0..=bn1).prop_map(|(kind, s, t, n)| Op::Burst { kind, s, t, n }).boxed());
